@@ -3,6 +3,7 @@
 package cache
 
 import (
+	"net"
 	"context"
 	"encoding/json"
 	"fmt"
@@ -35,13 +36,21 @@ var vkScClients = []vkScClient{
 	{"c1cd", "10.1.2.3:4000", "10.1.2.0/24", true},
 	{"c16", "10.1.2.9:4000", "10.1.0.0/16", false},
 	{"outsider", "192.0.2.1:4000", "192.0.2.0/24", false}, // not in client_networks
+	// (echo family only) an IPv6 client far outside 2001:db8:aa00::/56
+	{"c6", "[2001:dff:1234:5600::1]:4000", "2001:dff:1234:5600::/56", false},
 }
+
+// vkScMainClients: the clients of the general alphabets (the last one belongs to the echo family)
+var vkScMainClients = len(vkScClients) - 1
 
 type vkScEv struct {
 	Kind   string `json:"kind"` // ask, askneg, askbelow, adv, pf (the background refresh worker runs every queued refresh)
 	Client int    `json:"client,omitempty"`
 	Scope  int    `json:"scope,omitempty"` // authority-declared scope if this ask reaches upstream
 	D      int    `json:"d,omitempty"`
+	// Echo: what ADDRESS / FAMILY the upstream's subnet option carries in its response: "" the forwarded one (RFC 7871 7.3),
+	// "addr" another subnet of the same family (10.9.9.0), "v6" the other family (2001:db8:aa00::)
+	Echo string `json:"echo,omitempty"`
 }
 
 func (e vkScEv) String() string {
@@ -51,6 +60,9 @@ func (e vkScEv) String() string {
 	case "pf":
 		return fmt.Sprintf("pf(scope=%d)", e.Scope)
 	default:
+		if e.Echo != "" {
+			return fmt.Sprintf("%s(%s,scope=%d,echo=%s)", e.Kind, vkScClients[e.Client].Name, e.Scope, e.Echo)
+		}
 		return fmt.Sprintf("%s(%s,scope=%d)", e.Kind, vkScClients[e.Client].Name, e.Scope)
 	}
 }
@@ -70,6 +82,7 @@ type vkScWorld struct {
 	stored  []*vkScStored
 	pending *vkScStored
 	negMode bool
+	echo    string
 	holdPF  bool // leave claimed refreshes queued for a later "pf" event instead of dropping them
 }
 
@@ -126,7 +139,20 @@ func vkNewScWorld() *vkScWorld {
 				if e, ok := o.(*dns.EDNS0_SUBNET); ok {
 					ropt := &dns.OPT{Hdr: dns.RR_Header{Name: ".", Rrtype: dns.TypeOPT}}
 					ropt.SetUDPSize(1232)
-					ropt.Option = append(ropt.Option, &dns.EDNS0_SUBNET{Code: dns.EDNS0SUBNET, Family: e.Family, SourceNetmask: e.SourceNetmask, SourceScope: uint8(w.scope), Address: e.Address})
+					echo := &dns.EDNS0_SUBNET{Code: dns.EDNS0SUBNET, Family: e.Family, SourceNetmask: e.SourceNetmask, SourceScope: uint8(w.scope), Address: e.Address}
+					switch w.echo {
+					case "addr": // a buggy or hostile upstream names ANOTHER subnet of the same family
+						echo.Address = net.ParseIP("10.9.9.0").To4()
+						if e.Family == 2 {
+							echo.Address = net.ParseIP("2001:db8:aa00::")
+						}
+					case "v6": // ... or the other family
+						echo.Family, echo.Address = 2, net.ParseIP("2001:db8:aa00::")
+						if e.Family == 2 {
+							echo.Family, echo.Address = 1, net.ParseIP("10.9.9.0").To4()
+						}
+					}
+					ropt.Option = append(ropt.Option, echo)
 					m.Extra = append(m.Extra, ropt)
 					if w.scope > 0 {
 						// reference clamp: never more specific than what was forwarded nor than the floor
@@ -134,8 +160,13 @@ func vkNewScWorld() *vkScWorld {
 						if bits > int(e.SourceNetmask) {
 							bits = int(e.SourceNetmask)
 						}
-						if bits > vkScPolicy.floor(true) {
-							bits = vkScPolicy.floor(true)
+						if w.echo == "v6" {
+							// the echo names an address of the OTHER family: its scope length says nothing about the
+							// forwarded subnet; the audience is exactly what was forwarded
+							bits = int(e.SourceNetmask)
+						}
+						if fl := vkScPolicy.floor(e.Family == 1); bits > fl {
+							bits = fl
 						}
 						a, _ := netip.AddrFromSlice(e.Address)
 						st.scope, _ = a.Unmap().Prefix(bits)
@@ -174,6 +205,7 @@ func (w *vkScWorld) apply(ev vkScEv) (string, string) {
 	}
 	cl := vkScClients[ev.Client]
 	w.scope = ev.Scope
+	w.echo = ev.Echo
 	w.pending = nil
 	queued := len(w.c.prefetchQueue.items)
 	name := "geo.t."
@@ -186,7 +218,11 @@ func (w *vkScWorld) apply(ev vkScEv) (string, string) {
 	cs := vkECSCase{Policy: vkScPolicy, Client: cl.Addr, CD: cl.CD}
 	if cl.ECS != "" {
 		p := netip.MustParsePrefix(cl.ECS)
-		cs.Opt = &vkECSOpt{Family: 1, Netmask: uint8(p.Bits()), Addr: p.Addr().String()}
+		fam := uint16(1)
+		if p.Addr().Is6() {
+			fam = 2
+		}
+		cs.Opt = &vkECSOpt{Family: fam, Netmask: uint8(p.Bits()), Addr: p.Addr().String()}
 	}
 	cutsBefore, proofsBefore := w.c.store.NXDomainCutLen(), w.c.store.DenialProofLen()
 	t := vtime.Now()
@@ -258,8 +294,8 @@ func (w *vkScWorld) apply(ev vkScEv) (string, string) {
 		if ok {
 			cp := netip.MustParsePrefix(cl.ECS)
 			fbits := cp.Bits()
-			if fbits > vkScPolicy.ceiling(true) {
-				fbits = vkScPolicy.ceiling(true)
+			if cl := vkScPolicy.ceiling(cp.Addr().Is4()); fbits > cl {
+				fbits = cl
 			}
 			fp, _ := cp.Addr().Prefix(fbits)
 			ok = st.scope.Bits() <= fp.Bits() && st.scope.Contains(fp.Addr())
@@ -370,7 +406,7 @@ func TestVerifC19Scoped(t *testing.T) {
 	if c.Thorough() {
 		scopes = []int{0, 8, 16, 20, 21, 24, 25, 32, 33}
 	}
-	for ci := range vkScClients {
+	for ci := 0; ci < vkScMainClients; ci++ {
 		for _, s := range scopes {
 			evs = append(evs, vkScEv{Kind: "ask", Client: ci, Scope: s})
 		}
@@ -435,7 +471,7 @@ func TestVerifC19Scoped(t *testing.T) {
 	// advance, under EVERY policy (including subnet handling off / invalid) and both entry forms.
 	{
 		var nev []vkScEv
-		for ci := range vkScClients {
+		for ci := 0; ci < vkScMainClients; ci++ {
 			nev = append(nev, vkScEv{Kind: "askneg", Client: ci}, vkScEv{Kind: "askbelow", Client: ci})
 		}
 		nev = append(nev, vkScEv{Kind: "adv", D: 4})
@@ -504,9 +540,9 @@ func TestVerifC19Scoped(t *testing.T) {
 	}
 	n := 0
 	for pi = 0; pi < vkScMainPolicies; pi++ {
-		for creator := range vkScClients {
+		for creator := 0; creator < vkScMainClients; creator++ {
 			for _, s0 := range pfScopes {
-				for trigger := range vkScClients {
+				for trigger := 0; trigger < vkScMainClients; trigger++ {
 					for _, s1 := range pfScopes {
 						n++
 						if !c.Mine(n) {
@@ -516,7 +552,7 @@ func TestVerifC19Scoped(t *testing.T) {
 							c.Cap("time budget")
 							return
 						}
-						for probe := range vkScClients {
+						for probe := 0; probe < vkScMainClients; probe++ {
 							h := []vkScEv{{Kind: "ask", Client: creator, Scope: s0}, {Kind: "adv", D: 35}, {Kind: "ask", Client: trigger, Scope: s0},
 								{Kind: "pf", Scope: s1}, {Kind: "ask", Client: probe, Scope: s1}}
 							v, outs := vkScReplay(pi, h)
@@ -537,6 +573,45 @@ func TestVerifC19Scoped(t *testing.T) {
 								}
 								c.Violation("scoped:refresh:"+vkC19Class(v), fmt.Sprintf("policy %v after %v: %s", vkScPolicies[pi], h, v), map[string]any{"hist": h, "policy": pi})
 								if c.NumViolations() > 5 {
+									return
+								}
+							}
+						}
+					}
+				}
+			}
+		}
+	}
+	// echo family: the upstream's subnet option does NOT echo what was forwarded (another subnet of the family, or the other
+	// family). The audience of what is stored is still the FORWARDED subnet (the reference takes the address from the
+	// request); a client inside the echoed prefix that never asked, of either family, must not be served it.
+	echoWork := 0
+	for pi = 0; pi < vkScMainPolicies; pi++ {
+		for _, echo := range []string{"addr", "v6"} {
+			for _, creator := range []int{0, 2, len(vkScClients) - 1} {
+				for _, s0 := range []int{16, 24, 56} {
+					echoWork++
+					if !c.Mine(echoWork) {
+						continue
+					}
+					for probe := range vkScClients {
+						for _, route := range []string{"msg", "wire"} {
+							h := []vkScEv{{Kind: "ask", Client: creator, Scope: s0, Echo: echo}, {Kind: "ask", Client: probe, Scope: s0}}
+							v, outs := vkScReplayR(pi, route, h)
+							c.Add("evaluations", 1)
+							c.Outcome("echo-family:" + outs[len(outs)-1])
+							c.DistinctStr("nontrivial", fmt.Sprint("echo", pi, route, h))
+							if v != "" {
+								if strings.Contains(v, "harness:") {
+									c.HarnessError(v)
+									return
+								}
+								if v2, _ := vkScReplayR(pi, route, h); v2 == "" {
+									c.Add("dropped_unreproducible", 1)
+									continue
+								}
+								c.Violation("scoped:echo-"+echo+":"+vkC19Class(v), fmt.Sprintf("policy %v, %s-born, after %v: %s", vkScPolicies[pi], route, h, v), map[string]any{"hist": h, "policy": pi, "route": route})
+								if c.NumViolations() > 8 {
 									return
 								}
 							}
@@ -576,7 +651,7 @@ func TestVerifC03Audience(t *testing.T) {
 	if c.Thorough() {
 		scopes = []int{0, 8, 16, 20, 21, 24, 25, 33}
 	}
-	for ci := range vkScClients {
+	for ci := 0; ci < vkScMainClients; ci++ {
 		for _, s := range scopes {
 			evs = append(evs, vkScEv{Kind: "ask", Client: ci, Scope: s})
 		}
